@@ -14,15 +14,21 @@ from concurrent.futures import ThreadPoolExecutor
 import vlib
 
 WIDE_TYPES = ("u32", "i32", "u64", "i64", "ull", "ll", "mixed")
+# the limb arithmetic of WideIM recurses once per bit of a 64-bit value: TLC's interpreter needs a deeper stack
+JENV = {"JAVA_TOOL_OPTIONS": "-Xss64m"}
+CXXFLAGS = ["-pthread", "-fno-optimize-sibling-calls"]
 
 
-def _split(path, n, outprefix):
-    """Split an ndjson file into n files of (almost) equal line count."""
-    with open(path, "rb") as f:
-        lines = f.readlines()
-    if not lines:
-        raise vlib.ModelFailure("driver produced no events: " + path)
-    n = max(1, min(n, (len(lines) + 19999) // 20000))
+def _split(paths, n, outprefix):
+    """Concatenate ndjson files and split them into n files of (almost) equal line count."""
+    lines = []
+    for p in paths:
+        with open(p, "rb") as f:
+            part = f.readlines()
+        if not part:
+            raise vlib.ModelFailure("driver produced no events: " + p)
+        lines += part
+    n = max(1, min(n, (len(lines) + 4999) // 5000))
     per = (len(lines) + n - 1) // n
     outs = []
     for i in range(n):
@@ -33,62 +39,76 @@ def _split(path, n, outprefix):
         with open(op, "wb") as g:
             g.writelines(chunk)
         outs.append(op)
-    return outs, len(lines)
+    return outs
+
+
+def _tv(chunks, tag, par):
+    with ThreadPoolExecutor(max_workers=par) as ex:
+        futs = [ex.submit(vlib.tlc_tv, "IntMathTrace.tla", "IntMathTrace.cfg", tp, "%s_%d" % (tag, i), "3g", 3600, JENV)
+                for i, tp in enumerate(chunks)]
+        res = [f.result() for f in futs]
+    return {"events": sum(r["events"] for r in res), "deviations": [d for r in res for d in r["deviations"]],
+            "wall": max(r["wall"] for r in res)}
 
 
 def model(tier):
-    consts = {"quick": {"ZStride": "3"}, "thorough": {"ZStride": "1"}}[tier]
-    return vlib.tlc_mc("IntMath.tla", "IntMath.cfg", "intmath_mc_" + tier, workers=8, heap="4g", constants=consts, timeout=1500)
+    consts = {"quick": {"ZStride": "32"}, "thorough": {"ZStride": "1"}}[tier]
+    return vlib.tlc_mc("IntMath.tla", "IntMath.cfg", "intmath_mc_" + tier, workers=6 if tier == "quick" else 8, heap="4g",
+                       constants=consts, timeout=3000, env=JENV)
 
 
 def build_drivers():
-    jobs = [dict(src="intmath_driver.cpp", out="intmath_etl", std="c++23"),
-            dict(src="intmath_driver.cpp", out="intmath_std", std="c++23", flags=["-DVH_STD"], include_repo=False)]
+    jobs = [dict(src="intmath_driver.cpp", out="intmath_etl", std="c++23", flags=CXXFLAGS),
+            dict(src="intmath_driver.cpp", out="intmath_std", std="c++23", flags=CXXFLAGS + ["-DVH_STD"], include_repo=False)]
     p = vlib.build_many(jobs)
     return {"etl": p[0], "std": p[1]}
 
 
 def run_sweeps(tier, bins, impl):
-    """16-bit sweeps (4 parts) and the wide types; returns trace paths and the drivers' stderr."""
+    """16-bit sweeps and the wide types; returns (16-bit trace paths, wide trace paths, stderr texts)."""
     d = vlib.workdir("traces")
-    tasks = []
-    nparts = 4 if tier == "quick" else 8
+    t16, tw = [], []
+    nparts = 2 if tier == "quick" else 8
     for part in range(nparts):
-        tasks.append(([bins[impl], "sweep16", tier, str(part), str(nparts)],
-                      os.path.join(d, "intmath_%s_s16_%d.ndjson" % (impl, part))))
+        t16.append(([bins[impl], "sweep16", tier, str(part), str(nparts)],
+                    os.path.join(d, "intmath_%s_%s_s16_%d.ndjson" % (impl, tier, part))))
     for t in WIDE_TYPES:
-        tasks.append(([bins[impl], "wide", tier, t], os.path.join(d, "intmath_%s_wide_%s.ndjson" % (impl, t))))
-    res = vlib.run_parallel(tasks, par=8)
-    return [t[1] for t in tasks], [e for _, e in res]
+        tw.append(([bins[impl], "wide", tier, t], os.path.join(d, "intmath_%s_%s_wide_%s.ndjson" % (impl, tier, t))))
+    res = vlib.run_parallel(t16 + tw, par=6)
+    return [t[1] for t in t16], [t[1] for t in tw], [e for _, e in res]
 
 
-def run_replay(bins, impl, genfile):
-    d = vlib.workdir("traces")
-    tp = os.path.join(d, "intmath_%s_replay8.ndjson" % impl)
-    _, err = vlib.run([bins[impl], "replay8", genfile], tp)
-    return tp, err
-
-
-def _tv(paths, tag, nsplit, par):
-    chunks = []
-    for p in paths:
-        c, _ = _split(p, nsplit, p[:-len(".ndjson")] + "_c")
-        chunks += c
-    return vlib.tv_parallel("IntMathTrace.tla", "IntMathTrace.cfg", chunks, tag, par=par, heap="3g")
+def _traps(errs):
+    n = 0
+    for e in errs:
+        for line in e.splitlines():
+            if line.startswith("SUMMARY") and "traps=" in line:
+                n += int(line.rsplit("traps=", 1)[1])
+    return n
 
 
 def pipeline(tier, rep, calibrate=True):
-    par = 8
-    with ThreadPoolExecutor(max_workers=2) as ex:
+    par = 6 if tier == "quick" else 8
+    d = vlib.workdir("traces")
+    if os.environ.get("VERIF_CALIBRATE", "1") == "0":
+        calibrate = False        # mutation self-tests only: the std build does not depend on the tree under test
+        rep.notes.append("calibration skipped (VERIF_CALIBRATE=0)")
+    impls = ("etl", "std") if calibrate else ("etl",)
+    with ThreadPoolExecutor(max_workers=1) as ex:
         fmc = ex.submit(model, tier)
         bins = build_drivers()
-        # sweeps do not depend on the model run: execute and validate them while TLC explores
-        sw_etl, err_etl = run_sweeps(tier, bins, "etl")
-        tv_sw = _tv(sw_etl, "intmath_tv_sw_etl", 2 if tier == "quick" else 6, par)
-        ctv_sw = None
-        if calibrate:
-            sw_std, _ = run_sweeps(tier, bins, "std")
-            ctv_sw = _tv(sw_std, "intmath_tv_sw_std", 2 if tier == "quick" else 6, par)
+        # the sweeps do not depend on the model run: execute and validate them while TLC explores
+        tv_sw = {}
+        traps = {}
+        nfiles = 0
+        for impl in impls:
+            t16, tw, errs = run_sweeps(tier, bins, impl)
+            traps[impl] = _traps(errs)
+            nfiles = len(t16) + len(tw)
+            # wide events cost ~10x a 16-bit one: balance them over their own chunks
+            chunks = _split(t16, 2 if tier == "quick" else 16, os.path.join(d, "intmath_%s_%s_c16" % (impl, tier))) \
+                + _split(tw, 4 if tier == "quick" else 16, os.path.join(d, "intmath_%s_%s_cw" % (impl, tier)))
+            tv_sw[impl] = _tv(chunks, "intmath_tv_sw_%s_%s" % (impl, tier), par)
         mc = fmc.result()
     rep.add_mc("IntMath", mc)
     rep.cov["exhaustive"] = True
@@ -100,19 +120,24 @@ def pipeline(tier, rep, calibrate=True):
     with open(genfile, "w") as f:
         for g in gen:
             f.write(json.dumps(g) + "\n")
-    rp_etl, err_rp = run_replay(bins, "etl", genfile)
-    tv_rp = _tv([rp_etl], "intmath_tv_rp_etl", 2 * par, 2 * par)
-    rep.add_tv("IntMath", tv_rp, len(gen), "8-bit domain exported by TLC")
-    rep.add_tv("IntMath", tv_sw, len(sw_etl), "16-bit sweeps, 32/64-bit boundary and seeded random values")
-    rep.cov["modules"]["IntMath"]["not_drivable"] = ["sub_sat / mul_sat (not provided by etl)"]
+    tv_rp = {}
+    for impl in impls:
+        tp = os.path.join(d, "intmath_%s_%s_replay8.ndjson" % (impl, tier))
+        _, err = vlib.run([bins[impl], "replay8", genfile], tp)
+        traps[impl] += _traps([err])
+        chunks = _split([tp], 8 if tier == "quick" else 12, os.path.join(d, "intmath_%s_%s_c8" % (impl, tier)))
+        tv_rp[impl] = _tv(chunks, "intmath_tv_rp_%s_%s" % (impl, tier), 12)
+    rep.add_tv("IntMath", tv_rp["etl"], len(gen), "8-bit domain exported by TLC")
+    rep.add_tv("IntMath", tv_sw["etl"], nfiles, "16-bit sweeps, 32/64-bit boundary and seeded random values")
+    m = rep.cov["modules"]["IntMath"]
+    m["not_drivable"] = ["sub_sat", "mul_sat (neither is provided by etl)"]
+    m["calls_ended_by_a_signal"] = traps["etl"]
     rep.sample({"module": "IntMath", "input": gen[len(gen) // 2]})
     if calibrate:
-        rp_std, _ = run_replay(bins, "std", genfile)
-        ctv_rp = _tv([rp_std], "intmath_tv_rp_std", 2 * par, 2 * par)
-        for ctv in (ctv_sw, ctv_rp):
+        for ctv in (tv_sw["std"], tv_rp["std"]):
             if ctv["deviations"]:
                 dv = ctv["deviations"][0]
                 raise vlib.ModelFailure("calibration: the reference implementation deviates from the IntMath spec "
                                         "(spec/projection error): %s %s" % (dv["kind"], json.dumps(dv.get("ev"))[:500]))
-        rep.cov["modules"]["IntMath"]["calibration_events_std"] = ctv_sw["events"] + ctv_rp["events"]
-    return tv_rp, tv_sw
+        m["calibration_events_std"] = tv_sw["std"]["events"] + tv_rp["std"]["events"]
+    return tv_rp["etl"], tv_sw["etl"]
